@@ -160,6 +160,9 @@ func registerIntrinsics(e *Engine) {
 		e.unsupported("nd.Watch needs a non-nil pointer")
 		return nil, true
 	}
+	I[nd+"Depth"] = func(e *Engine, st *State, th *Thread, args []Value, call *ssa.CallCommon) (Value, bool) {
+		return e.i64(uint64(len(th.Frames))), true
+	}
 	I[nd+"WatchAll"] = func(e *Engine, st *State, th *Thread, args []Value, call *ssa.CallCommon) (Value, bool) {
 		st.WatchAll = args[0].(*smt.Term).IsTrue()
 		return nil, true
